@@ -5,6 +5,10 @@ import json, sys
 ALL = ["C%02d" % i for i in range(1, 21)]
 
 CHECKS = {
+ "C18": dict(level="fault_enumeration", design="§3 C18",
+   technique="exhaustive fault-point enumeration: every byte offset of every corpus document as the point where the stream (reads) or the destination (writes) fails, two fault shapes, several delivery granularities, on the real readers/writers; plus over-long lines and file-helper error paths",
+   text="Every offset k in 0..len of every corpus document is a fault point for the real reader (TTML up to the end of the root element); every offset of every writer's output is a fault point for the real writer; a reader/writer that reached the fault must return a non-nil error. Over-long lines (65535..2^20) must give an error or a complete result. Fault-free writes must hand the complete document to the destination.",
+   note="Trusted: Go toolchain/stdlib, astits. Quick restricts cross-format testdata conversions to block-structured write offsets (every offset in thorough). Running as root: 'unwritable directory' is replaced by 'path under a regular file' and 'missing parent'."),
  "C17": dict(level="model_checking", design="§3 C17, §0.1 E1 over environment answers",
    technique="stateless model checking of the reader against a nondeterministic io.Reader environment: every Read is a choice point, all schedules with <=B deviations (every single split point, zero-length reads, data-with-EOF) are enumerated on the real readers and compared with the all-at-once result",
    text="For every corpus document of every format the real reader is run under every delivery schedule within the deviation bound (quick: every single split point; thorough: 2 deviations for <=400-byte and 3 for <=60-byte documents), under 20 fixed schedules, and on generated large documents whose CR LF pairs straddle 4096/8192/65536 boundaries. The canonical dump (or the fact of failing) must equal the all-at-once result.",
